@@ -2,8 +2,14 @@ use super::MetricTrait;
 use crate::base::TimePredicate;
 use crate::utils::curr_time_millis;
 use crate::{Error, Result};
+#[cfg(not(sentinel_verif))]
 use std::sync::atomic::{AtomicU64, Ordering};
+#[cfg(sentinel_verif)]
+use sentinel_verif_rt::sync::atomic::{AtomicU64, Ordering};
+#[cfg(not(sentinel_verif))]
 use std::sync::{Arc, Mutex};
+#[cfg(sentinel_verif)]
+use sentinel_verif_rt::sync::{Arc, Mutex};
 
 const DEFAULT_TIME: u64 = 0;
 
@@ -171,7 +177,10 @@ impl<T: MetricTrait> LeapArray<T> {
                     return Ok(Arc::clone(&self.array[idx]));
                 } else {
                     // during sleeping, other thread may have reset the bucket
+                    #[cfg(not(sentinel_verif))]
                     std::thread::yield_now();
+                    #[cfg(sentinel_verif)]
+                    sentinel_verif_rt::sync::yield_now();
                 }
             } else {
                 return Err(Error::msg("invalid time stamp, cannot find bucket"));
